@@ -413,6 +413,18 @@ def oracle(ctx, cells, rects, rects_big, triples):
                     if got != ('ok', want):
                         ctx.violation(dict(call='relative', args=[nm, ac, ar, dr, dc]),
                                       "relative reference does not wrap to the expected cell", impl=got, expected=want)
+                # the other spellings of the same relative reference: a bare R / C for a zero offset, and the
+                # absolute spelling of the target
+                spellings = {('R' if dr == 0 else f'R[{dr}]') + ('C' if dc == 0 else f'C[{dc}]'),
+                             f'R{want_r}' + ('C' if dc == 0 else f'C[{dc}]'),
+                             f'R[{dr}]C{want_c}'}        # (a bare R before a column number reads as an A1 address: RC5)
+                for text in sorted(spellings - {r1c1_text(dr, dc)}):
+                    ctx.count(('rel-spelling', ac, ar, text), kind='oracle:relative')
+                    got = run_impl(lambda: descr(AddressRange.create(text, cell=anchor_obj((ar, ac)))))
+                    if got != ('ok', want):
+                        ctx.violation(dict(call='relative', args=[text, ac, ar, dr, dc]),
+                                      "a spelling of a relative R1C1 reference does not denote the expected cell",
+                                      impl=got, expected=want)
     # ---- 3. enumeration
     enum_rects = rects + [rc for rc in rects_big if (rc[2] - rc[0] + 1) * (rc[3] - rc[1] + 1) <= 300]
     for rc in enum_rects:
